@@ -224,6 +224,24 @@ def check_tokens(acc, pendulum, z, f, loc, pairs=False):
                     kf = "C08-naive-timestamp-token" if (z is None and ("X" in (a, b) or "x" in (a, b)) and got[0] == "raises"
                                                          and got[1].startswith("TypeError")) else None
                     acc.mismatch("token-pair", "pair", dict(case, fmt=fmt), got, want, kf=kf)
+    # the same value carrying a stdlib tzinfo (what astimezone(<stdlib tz>) returns): offset and timestamp tokens and
+    # the helpers built on them render exactly as for the pendulum-zoned value
+    if z is not None and loc == "en" and not pairs and obs.offset_s(x) % 60 == 0:
+        fx = x.astimezone(dt_.timezone(x.utcoffset()))
+        for tok in ("Z", "ZZ", "X", "x", "YYYY-MM-DDTHH:mm:ss.SSSSSSZ"):
+            acc.c["evaluations"] += 1
+            got = _fmt(fx, tok, loc)
+            want = _fmt(x, tok, loc)
+            if got != want:
+                acc.mismatch("token", f"{tok}/stdlib-tzinfo-receiver", dict(case, tok=tok), got, want)
+        for name in ("to_atom_string", "to_rfc2822_string", "to_w3c_string", "to_rss_string"):
+            acc.c["evaluations"] += 1
+            try:
+                got, want = getattr(fx, name)(), getattr(x, name)()
+            except Exception as e:  # noqa: BLE001
+                got, want = f"raises {type(e).__name__}", "a string"
+            if got != want:
+                acc.mismatch("named", f"{name}/stdlib-tzinfo-receiver", dict(case, name=name), got, want)
     # the process-wide default locale (set_locale) must give what the explicit locale= argument gives
     if loc != "en":
         pendulum.set_locale(loc)
